@@ -981,6 +981,10 @@ pub fn run_script<const N: usize>(script: &str) -> String {
         std::fs::create_dir_all(&dst).expect("mkdir savedir");
         copy_dir(&dir, Path::new(&dst));
     }
-    let _ = std::fs::remove_dir_all(&dir);
+    // kill mode: the parent inspects the directory of a killed child; a child that finished its script before the kill
+    // must not be caught in the middle of deleting it
+    if std::env::var("VERIF_KEEP").is_err() {
+        let _ = std::fs::remove_dir_all(&dir);
+    }
     ctx.out
 }
